@@ -201,3 +201,34 @@ Proof.
   intros Hr w. exact (proj1 (step_op_good t w (Gap o e late sf) Hr (Inv_after t h Hr w0 Inv_w0))).
 Qed.
 Print Assumptions C21_reader_vs_removal.
+
+(* ================= round 4: several write calls per save ================= *)
+(* WHAT THE FILE CAN CONTAIN (same stream s, cache mode).  B is the later opener: its "wb" open has just
+   truncated the file while A stood at offset a0 (after_open a0).  After ANY interleaving of write calls
+   of ANY sizes by the two writers (evs arbitrary, so also cut anywhere by a kill), the file is exactly:
+   byte p of s at every position written since — B's prefix [0, offB) and A's stretch [a0, offA) — and zero
+   everywhere else below its length max(offB, offA): a prefix of s, or prefix ++ zero gap ++ later stretch. *)
+Theorem C21_chunked_file_shape (s : list byte) (a0 : nat) (evs : list ev) :
+  a0 <= length s -> forallb is_write evs = true ->
+  shapeS s a0 (ov_run s s (after_open a0) evs).
+Proof. intros Ha Hw. exact (shapeS_run s a0 evs _ Hw (shapeS_after_open s a0 Ha)). Qed.
+Print Assumptions C21_chunked_file_shape.
+
+(* WHICH OF THOSE A READER ACCEPTS, and the property's clause: same options (same stream), k >= 1 write calls
+   each, any interleaving, with or without a kill, a later caller with ANY options: it gets the model of the
+   current sources for its own options (only from the complete stream) or it recompiles; it never raises.
+   ASSUMPTION: at the moment of the load the later opener's offset is a position where the decoder expects an
+   opcode (its write calls end at opcode/frame boundaries); without it: C21_torn_unaligned_refuted.
+   Two DIFFERENT option sets with several write calls: refuted in the model, C21_mixture_refuted. *)
+Theorem C21_two_writers_chunked_same_stream (t : tables) (h : list op) (o' a0 : nat) (evs : list ev) (o : nat) (e : bool) :
+  routes_ok t = true ->
+  let w := world_after t w0 h in
+  a0 <= length (stream w o') -> forallb is_write evs = true ->
+  let x := ov_run (stream w o') (stream w o') (after_open a0) evs in
+  boundary (stream w o') (offB x) = true ->
+  match load_gen t (set_cfile w (option_map (fun f => (f, clock w)) (ofile x))) o e UnpicklingError with
+  | inr m => m = (src w, o)
+  | inl y => transfer_recompiles t y = true
+  end.
+Proof. intros Hr w. exact (chunked_same_stream_reader t w o' a0 evs o e Hr). Qed.
+Print Assumptions C21_two_writers_chunked_same_stream.
